@@ -80,10 +80,10 @@ type PP struct {
 type Case struct {
 	Name         string `json:"name"`
 	Seed         int64  `json:"seed"`
-	Layout       string `json:"layout"`                  // mixed | uniform | explicit
+	Layout       string `json:"layout"`                  // mixed | uniform | ladder | explicit
 	ZeroPermille int    `json:"zero_permille,omitempty"` // mixed: share of empty prefixes
 	Huge         bool   `json:"huge,omitempty"`          // mixed: populations 2^k-1,2^k,2^k+1 for k=9..12 on random prefixes
-	Uniform      int    `json:"uniform,omitempty"`       // uniform: population of every prefix
+	Uniform      int    `json:"uniform,omitempty"`       // uniform: population of every prefix; ladder: largest population
 	Explicit     []PP   `json:"explicit,omitempty"`      // forced populations (applied last, every layout)
 	DupOneIn     int    `json:"dup_one_in,omitempty"`    // buckets selected for duplicated Puts (1 = every bucket, 0 = none)
 	DupSigOneIn  int    `json:"dup_sig_one_in,omitempty"`
@@ -143,6 +143,12 @@ func (c *Case) Populations() []int {
 	case "uniform":
 		for p := range pops {
 			pops[p] = c.Uniform
+		}
+	case "ladder":
+		// every population 0..Uniform once, on prefixes chosen by the seed (all tree shapes, not only 2^k +- 1)
+		perm := rng.Perm(65536)
+		for n := 0; n <= c.Uniform && n < 65536; n++ {
+			pops[perm[n]] = n
 		}
 	case "explicit":
 	}
@@ -1009,9 +1015,15 @@ func Cases(seed int64, thorough bool, small int) []Case {
 	}
 	cs = append(cs, Case{Name: "pow16", Seed: sd(), Layout: "explicit", Order: "roundrobin", Meta: "none",
 		Explicit: []PP{{uint16(rng.Intn(65536)), 65535}, {0xffff, 65536}, {uint16(rng.Intn(65535)), 65537}}})
-	nRand := 2
+	ladder := 400
 	if thorough {
-		nRand = 24
+		ladder = 1500
+	}
+	cs = append(cs, Case{Name: fmt.Sprintf("ladder-%d", ladder), Seed: sd(), Layout: "ladder", Uniform: ladder, Order: orders[rng.Intn(4)], Meta: "std",
+		DupOneIn: 5, DupSigOneIn: 4, DupTimes: 2, Explicit: []PP{{0xffff, 6}, {0x0000, 10}}})
+	nRand := 4
+	if thorough {
+		nRand = 60
 	}
 	for i := 0; i < nRand; i++ {
 		c := Case{Name: fmt.Sprintf("mixed-rand-%d", i), Seed: sd(), Layout: "mixed", ZeroPermille: []int{100, 250, 600, 900, 990}[rng.Intn(5)], Huge: rng.Intn(2) == 0,
